@@ -61,7 +61,7 @@ func c03Draw(b *c03Block, maxOps int) {
 			o.key = sym.Choice("prefix", len(c03Prefixes))
 		} else {
 			o.key = sym.Choice("key", len(c03Keys))
-			o.val = sym.BytesN("val", 1+sym.Choice("vlen", 2)) // creates, grows and shrinks
+			o.val = sym.BytesN("val", sym.Choice("vlen", sym.Param("VLENS", 3))) // empty values, creates, grows and shrinks
 		}
 		b.ops = append(b.ops, o)
 	}
